@@ -1,13 +1,24 @@
 #!/bin/bash
-# usage: tools/seedtest.sh <seed-dir-name> <check-id> [tier]   -- applies seeded/<name>/patch.diff to /repo, runs the check, undoes it
+# usage: tools/seedtest.sh <seed-dir-name> <check-id> [tier]
+# Runs a check against a scratch worktree of /repo with seeded/<name>/patch.diff applied (the
+# worktree lives under $TMPDIR and is removed afterwards); evidence and replays of that run go to a
+# scratch directory, /repo and /verif/evidence are not touched.
 name="$1"; id="$2"; tier="${3:-quick}"
 cd /verif
-git -C /repo apply "/verif/seeded/$name/patch.diff" || { echo "patch does not apply"; exit 9; }
+tmp="${TMPDIR:-/tmp}/gunyu-seedtest-$$"
+wt="$tmp/repo"; out="$tmp/out"
+mkdir -p "$tmp" "$out"
+git -C /repo worktree add -q --detach "$wt" HEAD || { echo "cannot create worktree"; rm -rf "$tmp"; exit 9; }
+# uncommitted changes of /repo (none expected) are not carried over
+if ! git -C "$wt" apply "/verif/seeded/$name/patch.diff"; then
+  echo "patch does not apply"; git -C /repo worktree remove --force "$wt"; rm -rf "$tmp"; exit 9
+fi
 s=$(date +%s)
-./check "$id" --tier "$tier" > "/tmp/seed_${name}_${id}.log" 2>&1
+VERIF_REPO="$wt" VERIF_OUT="$out" ./check "$id" --tier "$tier" > "/tmp/seed_${name}_${id}.log" 2>&1
 rc=$?
 e=$(date +%s)
-git -C /repo checkout -- .
 echo "seed=$name check=$id tier=$tier exit=$rc time=$((e-s))s"
 grep -h "^VIOLATION\|^   assert=" "/tmp/seed_${name}_${id}.log" | cut -c1-220 | head -6
 grep -h "^INCONCLUSIVE" "/tmp/seed_${name}_${id}.log" | cut -c1-220 | head -3
+git -C /repo worktree remove --force "$wt"
+rm -rf "$tmp"
